@@ -288,6 +288,19 @@ func (w *storeWorld) checkReadError(op *storeOp, err error) {
 	default:
 		w.readsOtherErr++
 		w.c.Count("read_err_"+code.String(), 1)
+		// On a medium without injected I/O errors or corruption a read fails
+		// with NOT_FOUND, for lack of a free block to refresh into or during
+		// shutdown (UNAVAILABLE), or because the caller asked for something
+		// the object cannot give (INVALID_ARGUMENT: offset beyond the end,
+		// size limit). Anything else - an I/O error, EOF from the index
+		// device, INTERNAL - has no cause in the run.
+		switch code {
+		case codes.Unavailable, codes.InvalidArgument, codes.ResourceExhausted, codes.Canceled:
+		default:
+			if !w.tolerateIOErrors && !w.tolerateIntegrity && !(code == codes.Internal && (strings.Contains(msg, "already been released") || strings.Contains(msg, "disappeared"))) {
+				w.c.Fail("unexpected-read-error", "%s failed with %v on a medium without injected errors", op, err)
+			}
+		}
 	}
 }
 
